@@ -586,7 +586,19 @@ impl Database {
                             }
                         }
                     };
-                    db.insert(key.clone(), Value::from(next.clone()));
+                    // Keep the version growing and the disk position of an already stored key
+                    let new_value = match db.get(&key.to_string()) {
+                        Some(old) => Value {
+                            value: next.clone(),
+                            version: old.version + 1,
+                            opp_id: Databases::next_op_log_id(),
+                            state: old.get_update_value_sate(),
+                            value_disk_addr: old.value_disk_addr,
+                            key_disk_addr: old.key_disk_addr,
+                        },
+                        None => Value::from(next.clone()),
+                    };
+                    db.insert(key.clone(), new_value);
                     (next, -1)
                 }
                 _ => {
